@@ -995,6 +995,13 @@ func prepareDeltaBuild(options Options, repository *git.Repository) (repos map[f
 				return nil, nil, nil, fmt.Errorf("change #%d: getting files before and after change: %w", i, err)
 			}
 
+			// Change.Files reports neither side when one side of a modification is not a file (a submodule
+			// link replacing a file, or a file replacing a submodule link). The file side would be silently
+			// lost (stale or missing document), so leave such changes to a normal build.
+			if (oldFile == nil && c.From.TreeEntry.Mode.IsFile()) || (newFile == nil && c.To.TreeEntry.Mode.IsFile()) {
+				return nil, nil, nil, fmt.Errorf("change #%d: a file replacing or replaced by a non-file entry is not yet supported in delta builds", i)
+			}
+
 			if newFile != nil {
 				// note: newFile.Name could be a path that isn't relative to the repository root - using the
 				// change's Name field is the only way that @ggilmore saw to get the full path relative to the root
